@@ -17,6 +17,7 @@ PROPS = {
         "units": [
             regress("C01"),
             {"run": "^TestC01$", "quick": 20000, "thorough": 200000},
+            {"fuzz": "FuzzC01", "fuzztime": "90s", "thorough_only": True, "run": "FuzzC01"},
         ],
     },
     "C02": {
@@ -30,6 +31,7 @@ PROPS = {
             {"run": "^TestRefSelf$", "quick": 300, "thorough": 3000, "single": True},
             {"run": "^TestC02$", "quick": 20000, "thorough": 200000},
             {"run": "^TestC02FileWriter$", "quick": 8000, "thorough": 80000},
+            {"fuzz": "FuzzC02", "fuzztime": "60s", "thorough_only": True, "run": "FuzzC02"},
         ],
     },
     "C15": {
@@ -55,6 +57,7 @@ PROPS = {
             regress("C03"),
             {"run": "^TestRefSelf$", "quick": 300, "thorough": 3000, "single": True},
             {"run": "^TestC03$", "quick": 20000, "thorough": 200000},
+            {"fuzz": "FuzzC03", "fuzztime": "90s", "thorough_only": True, "run": "FuzzC03"},
         ],
     },
     "C04": {
@@ -234,6 +237,7 @@ PROPS = {
         "units": [
             regress("C13"),
             {"run": "^TestC13$", "quick": 20000, "thorough": 200000},
+            {"fuzz": "FuzzC13", "fuzztime": "60s", "thorough_only": True, "run": "FuzzC13"},
         ],
     },
     "C14": {
